@@ -92,7 +92,7 @@ def plan(tier, seed, avoid):
 
 def floors(tier):
     return {"evaluations": 50000, "distinct_nontrivial": 300, "observed.relaxations_applied": 5000,
-            "observed.pairs.maze": 500, "observed.pairs.c": 60, "observed.executed_pairs": 1500,
+            "observed.pairs.maze": 400, "observed.pairs.c": 45, "observed.executed_pairs": 1500,
             "observed.shortened_executed": 300, "observed.not_shrunk_out_of_range": 3000,
             "observed.cross_section_jumps": 1000, "observed.llvm_lines_compared": 100000,
             "observed.near_boundary_jumps": 200, "observed.two_code_images": 100,
